@@ -31,7 +31,9 @@ def build_case(Ls, Rs, opts):
             outer = etree.Element("outer", nsmap=t.nsmap)
             etree.SubElement(outer, "sibling").tail = "x"
             outer.append(t)
-            t.tail = None
+            # text after the element in its document: the same on both sides (so no action may mention it), for half
+            # of the embedded cases
+            t.tail = "after" if len(Ls) % 2 else None
             etree.SubElement(outer, "sibling")
     if not (treeenc.supported(L) and treeenc.supported(R)):
         return None
